@@ -68,18 +68,41 @@ def run(ctx):
         ctx.judge('R1', 'no reference position escapes the use/def sets', facts={'instances': len(sub.instances)})
     fu = m.get_function(RC, 'find_unused_dummy_args_and_vars')
     s2 = ast.unparse(fu.node)
-    ok = 'for c, a in enumerate(routine.arguments)' in s2 and 'not a.name.lower() in used_or_defined_symbols' in s2
+    ok = False
+    for dc in ast.walk(fu.node):
+        if isinstance(dc, ast.DictComp) and len(dc.generators) == 1:
+            g_ = dc.generators[0]
+            if ast.unparse(g_.iter) == 'enumerate(routine.arguments)' and isinstance(g_.target, ast.Tuple) and len(g_.target.elts) == 2:
+                pos_, arg_ = (ast.unparse(e) for e in g_.target.elts)
+                # value = the position, key derives from the argument, filter = name not among the used/defined symbols
+                ok = ast.unparse(dc.value) == pos_ and arg_ in ast.unparse(dc.key) and any(
+                    ast.unparse(i_).startswith(f'not {arg_}.name.lower() in ') or ast.unparse(i_).startswith(f'{arg_}.name.lower() not in ')
+                    for i_ in g_.ifs)
     (ctx.judge('R3', 'unused positions from enumerate(routine.arguments)') if ok else
      ctx.violation('R3', 'find_unused_dummy_args_and_vars:positions', fu.where, 'unused dummy positions are not the indices in routine.arguments'))
     rc = m.get_function(RC, 'do_remove_unused_call_args')
     s3 = ast.unparse(rc.node)
-    ok = 'for i, arg in enumerate(call.arguments) if i not in unused_positions' in s3 and \
-        'unused_args_map[call.routine].values()' in s3 and 'kw.lower() in unused_args_map[call.routine]' in s3
+    upn = (X.names_assigned_from(rc.node, 'unused_args_map[', '.values()') or ['unused_positions'])[0]
+    cvar = next((n_.target.id for n_ in ast.walk(rc.node) if isinstance(n_, ast.For) and isinstance(n_.target, ast.Name)
+                 and 'CallStatement' in ast.unparse(n_.iter)), 'call')
+    ok_pos = any(isinstance(c_, ast.ListComp) and ast.unparse(c_.generators[0].iter) == f'enumerate({cvar}.arguments)'
+                 and isinstance(c_.generators[0].target, ast.Tuple)
+                 and any(ast.unparse(i_) == f'{ast.unparse(c_.generators[0].target.elts[0])} not in {upn}' for i_ in c_.generators[0].ifs)
+                 and ast.unparse(c_.elt) == ast.unparse(c_.generators[0].target.elts[1]) for c_ in ast.walk(rc.node))
+    ok_kw = any(isinstance(c_, ast.ListComp) and ast.unparse(c_.generators[0].iter) == f'{cvar}.kwarguments'
+                and isinstance(c_.generators[0].target, ast.Tuple)
+                and any(ast.unparse(i_) == f'{ast.unparse(c_.generators[0].target.elts[0])}.lower() in unused_args_map[{cvar}.routine]'
+                        for i_ in c_.generators[0].ifs) for c_ in ast.walk(rc.node))
+    ok = ok_pos and ok_kw and f'unused_args_map[{cvar}.routine].values()' in s3
     (ctx.judge('R3', 'call arguments removed by the same positions / lower-cased keyword names') if ok else
      ctx.violation('R3', 'do_remove_unused_call_args:positions', rc.where, 'call-site removal does not use the dummy positions / keyword names'))
     rd = m.get_function(RC, 'do_remove_unused_dummy_args')
     s4 = ast.unparse(rd.node)
-    ok = 'not a.name.lower() in unused_args' in s4
+    upar = [a.arg for a in rd.node.args.args][1]
+    ok = any(isinstance(c_, (ast.ListComp, ast.GeneratorExp)) and isinstance(c_.generators[0].target, ast.Name)
+             and any(ast.unparse(i_) in (f'not {c_.generators[0].target.id}.name.lower() in {upar}',
+                                         f'{c_.generators[0].target.id}.name.lower() not in {upar}') for i_ in c_.generators[0].ifs)
+             for c_ in ast.walk(rd.node))
     (ctx.judge('R3', 'dummy removal uses the same unused_args') if ok else
      ctx.violation('R3', 'do_remove_unused_dummy_args', rd.where, 'dummy removal does not use unused_args'))
     # ---- R2
@@ -87,21 +110,24 @@ def run(ctx):
     vc = T.function('visit_Conditional')
     body = X.body_nodoc(vc.node)
     rows = bad = 0
+    cn = (X.names_assigned_from(vc.node, 'self.visit(o.condition') or ['condition'])[0]
+    bn = (X.names_assigned_from(vc.node, 'self.visit(o.body') or ['body'])[0]
+    en = (X.names_assigned_from(vc.node, 'self.visit(o.else_body') or ['else_body'])[0]
     for env, label, marks in BF.truth_table(body, is_mark=lambda st: isinstance(st, ast.Return),
-                                            extra_atoms=["condition == 'True'", "condition == 'False'"]):
-        t, f_ = env["condition == 'True'"], env["condition == 'False'"]
+                                            extra_atoms=[f"{cn} == 'True'", f"{cn} == 'False'"]):
+        t, f_ = env[f"{cn} == 'True'"], env[f"{cn} == 'False'"]
         if t and f_:
             continue
         rows += 1
         ret = ast.unparse(marks[-1].value) if marks else None
         want = 'body' if t else ('else_body' if f_ else 'rebuild')
-        got = ret if ret in ('body', 'else_body') else 'rebuild'
+        got = {bn: 'body', en: 'else_body'}.get(ret, 'rebuild')
         if want != got:
             bad += 1
     (ctx.judge('R2', 'visit_Conditional branch selection', facts={'rows': rows}) if not bad and rows else
      ctx.violation('R2', 'RemoveDeadCodeTransformer.visit_Conditional:selection', vc.where,
                    'the branch kept for a constant condition is not the live one (body for True, else_body for False)'))
-    ok = 'condition = simplify(condition)' in ast.unparse(vc.node)
+    ok = f'{cn} = simplify({cn})' in ast.unparse(vc.node)
     (ctx.judge('R2', 'condition simplified before the test') if ok else ctx.note('condition is not simplified'))
 
 
